@@ -230,9 +230,9 @@ func c04Check(c *core.Ctx, rt *gtfs.Realtime, exp []c04Expect, desc func() any) 
 	}
 }
 
-// permutations calls f with every permutation of 0..n-1 (n <= 5) or with `sample` random ones.
-func permutations(r *core.Rand, n int, sample int, f func(p []int)) {
-	if n <= 5 {
+// permutations calls f with every permutation of 0..n-1 (n <= full) or with `sample` random ones.
+func permutations(r *core.Rand, n int, full int, sample int, f func(p []int)) {
+	if n <= full {
 		p := make([]int, n)
 		for i := range p {
 			p[i] = i
@@ -288,7 +288,7 @@ func runC04(c *core.Ctx) {
 	}
 	c.Feature(fmt.Sprintf("enumerated-pairs:%d", len(pairs)))
 	hdr := &gtfsrt.FeedHeader{GtfsRealtimeVersion: rgen.S("2.0"), Timestamp: rgen.U64(1700000000)}
-	permutations(c.R, len(ents), 120, func(p []int) {
+	permutations(c.R, len(ents), 5, 120, func(p []int) {
 		m := &gtfsrt.FeedMessage{Header: hdr}
 		for _, j := range p {
 			m.Entity = append(m.Entity, ents[j])
